@@ -174,6 +174,9 @@ def worker(case):
         offsets = sorted(set(list(range(0, min(len(raw), 48))) + list(range(48, len(raw), 8 if case['tier'] == 'quick' else 1))))
         if case['tier'] == 'quick':
             offsets = offsets[:48] + offsets[48::max(1, len(offsets) // 40)]
+        elif len(offsets) > 3000:
+            # (every offset of a file of several hundred kilobytes would take hours: the header densely, the body sampled)
+            offsets = offsets[:600] + offsets[600::max(1, len(offsets) // 1500)]
         bad = 0
         for k in offsets:
             tp = os.path.join(wd, "trunc.tables")
